@@ -20,18 +20,20 @@ def kinds():
     ieee = t.EUI64.convert("00:11:22:33:44:55:66:77")
 
     def datareq(tsn, n=300):
+        tsn = tsn % 256
         return c.APS.DataReq.Req(TSN=tsn, ParamLength=21, DataLength=n, DstAddr=ieee, ProfileID=260, ClusterId=6, DstEndpoint=1,
                                  SrcEndpoint=1, Radius=0, DstAddrMode=zt.AddrMode.NWK, TxOptions=c.aps.TransmitOptions.NONE,
                                  UseAlias=0, AliasSrcAddr=0, AliasSeqNbr=0, Payload=t.Payload(bytes([tsn]) * n))
 
     def wnv(tsn, n=600):
+        tsn = tsn % 256
         return c.NcpConfig.WriteNVRAM.Req(TSN=tsn, DatasetCnt=1, DatasetId=t.DatasetId(1), Version=1,
                                          Dataset=t.NVRAMDataset(bytes([tsn]) * n))
     G, P, Z = c.NcpConfig.GetShortAddr, c.NcpConfig.GetParentAddr, c.NcpConfig.GetZigbeeRole
     return {
-        "G": (lambda tsn: G.Req(TSN=tsn), G.Rsp, dict(NWKAddr=1)),
-        "P": (lambda tsn: P.Req(TSN=tsn), P.Rsp, dict(NWKParentAddr=1)),
-        "Z": (lambda tsn: Z.Req(TSN=tsn), Z.Rsp, dict(DeviceRole=t.DeviceRole(0))),
+        "G": (lambda tsn: G.Req(TSN=tsn % 256), G.Rsp, dict(NWKAddr=1)),
+        "P": (lambda tsn: P.Req(TSN=tsn % 256), P.Rsp, dict(NWKParentAddr=1)),
+        "Z": (lambda tsn: Z.Req(TSN=tsn % 256), Z.Rsp, dict(DeviceRole=t.DeviceRole(0))),
         "D": (lambda tsn: datareq(tsn), c.APS.DataReq.Rsp, dict(DstAddr=ieee, DstEndpoint=1, SrcEndpoint=1, TxTime=0, DstAddrMode=zt.AddrMode.NWK)),
         "W": (lambda tsn: wnv(tsn), c.NcpConfig.WriteNVRAM.Rsp, dict()),
         "B": (lambda tsn: wnv(tsn, 900), c.NcpConfig.WriteNVRAM.Rsp, dict()),
@@ -46,7 +48,7 @@ KEY = {"G": 1, "P": 2, "Z": 3, "D": 4, "W": 5, "B": 5, "E": 5, "F": 5}
 
 def rsp_bytes(Rsp, tsn, seq, **kw):
     import zigpy_zboss.types as t
-    r = Rsp(TSN=tsn, StatusCat=t.StatusCategory(0), StatusCode=t.StatusCodeGeneric(0), **kw)
+    r = Rsp(TSN=tsn % 256, StatusCat=t.StatusCategory(0), StatusCode=t.StatusCodeGeneric(0), **kw)
     body = r.to_frame().hl_packet.serialize()[2:]
     return streams.raw_frame(0xC0 | (seq << 2), body)
 
